@@ -646,38 +646,53 @@ partial def drainAccesses (s : CacheSt) (p : Nat) : CacheSt :=
   | some s' => drainAccesses s' p
   | none => s
 
+/-- The events of a critical section are `["acq", p]`, then any number of `["retry", p]`
+    (a failed open of the shelf inside `get`: sleep and try again, lock still held), then
+    `["rel", p, value]`.  The `access` steps are not in the trace: they are inserted here.
+    A retry precedes the read of its critical section, so the accesses are NOT performed at
+    `acq` any more: they are performed when the section ends (`rel`), and - so that the reported
+    disk is the same as before on truncated or refused traces - for the lock holder of the
+    last state reached. -/
 def runCacheCase (j : Json) : Json :=
   let progsA := (arrF j "progs").map fun pr => (asArr pr).toList.map toCOp
   let s0 := CacheSt.init (fun p => progsA.getD p [])
   let evs := (arrF j "events").toList
-  let rec go (s : CacheSt) (evs : List Json) (i : Nat) : CacheSt × Option (Nat × String) :=
+  let rec go (s : CacheSt) (evs : List Json) (i : Nat) (nr : Nat) :
+      CacheSt × Option (Nat × String) × Nat :=
     match evs with
-    | [] => (s, none)
+    | [] => (s, none, nr)
     | e :: rest =>
       let a := asArr e
       let p := asNat (a.getD 1 .null)
       match asStr (a.getD 0 .null) with
       | "acq" =>
         (match cacheStep s (.acquire p) with
-         | some s' => go (drainAccesses s' p) rest (i + 1)
-         | none => (s, some (i, s!"process {p} enters its critical section while the model's lock is held by {s.lock} (or it has nothing to do)")))
+         | some s' => go s' rest (i + 1) nr
+         | none => (s, some (i, s!"process {p} enters its critical section while the model's lock is held by {s.lock} (or it has nothing to do)"), nr))
+      | "retry" =>
+        (match cacheStep s (.retry p) with
+         | some s' => go s' rest (i + 1) (nr + 1)
+         | none => (s, some (i, s!"retry by process {p} is not an enabled step (lock held by {s.lock}; next accesses {repr (s.procs p).pending}; {(s.procs p).tries} failed attempts so far, at most {maxOpenRetry} can be retried)"), nr))
       | "rel" =>
+        let s := drainAccesses s p
         let ret := optStr (a.getD 2 .null)
         let isGet := match (s.procs p).cur with | some (.get _) => true | _ => false
         if isGet && (s.procs p).got != ret then
-          (s, some (i, s!"get of process {p} returned {ret} but the register holds {(s.procs p).got}"))
+          (s, some (i, s!"get of process {p} returned {ret} but the register holds {(s.procs p).got}"), nr)
         else
           (match cacheStep s (.release p) with
-           | some s' => go s' rest (i + 1)
-           | none => (s, some (i, s!"release by process {p} is not an enabled step")))
-      | k => (s, some (i, s!"unknown event {k}"))
-  let (sF, bad) := go s0 evs 0
+           | some s' => go s' rest (i + 1) nr
+           | none => (s, some (i, s!"release by process {p} is not an enabled step"), nr))
+      | k => (s, some (i, s!"unknown event {k}"), nr)
+  let (sL, bad, nRetry) := go s0 evs 0 0
+  let sF := match sL.lock with | some p => drainAccesses sL p | none => sL
   let replayOk := (specReplay [] sF.log).isSome
   let keys := (sF.disk.map (·.1)).eraseDups
   Json.mkObj [("valid", toJson bad.isNone),
     ("at", match bad with | some (i, _) => toJson i | none => .null),
     ("why", match bad with | some (_, w) => Json.str w | none => .null),
     ("logLen", toJson sF.log.length), ("specReplayOk", toJson replayOk),
+    ("retries", toJson nRetry),
     ("disk", Json.arr (keys.map fun k => Json.arr #[toJson k, optVal (sF.disk.value k)]).toArray)]
 
 /-! ### Fault (C10): run a schedule of the fault transition system -/
